@@ -477,7 +477,8 @@ func (e *Enc) loadSpec(ctx *specCtx, p *Val, T types.Type) *Val {
 		st = ctx.old
 	}
 	v := &Val{T: T}
-	if arr, ok := T.Underlying().(*types.Array); ok && pointeeIsRow(p, arr) {
+	if arr, ok := T.Underlying().(*types.Array); ok {
+		p = e.rowPtr(e.annotate(p), arr)
 		elemPtr := &Val{T: types.NewPointer(arr.Elem()), L: p.L, Root: p.Root}
 		for _, a := range e.accesses(elemPtr, arr.Elem()) {
 			v.L = append(v.L, sSel(e.heapGet(st, a.HK), a.Idx[0]))
@@ -533,6 +534,9 @@ func (e *Enc) evalSel(x SSel, ctx *specCtx) *Val {
 		st := ctx.st
 		if ctx.inOld {
 			st = ctx.old
+		}
+		if base.Box != nil {
+			base = base.Box
 		}
 		hk := e.hkeyNamed(types.Typ[types.UnsafePointer], "/"+x.Name+":"+typeKey(base.T), "Int")
 		obj := base.L[0]
@@ -639,12 +643,8 @@ func (e *Enc) evalIndex(x SIndex, ctx *specCtx) *Val {
 		return e.annotate(v)
 	case *types.Pointer:
 		if arr, ok := u.Elem().Underlying().(*types.Array); ok {
-			var p *Val
-			if pointeeIsRow(base, arr) {
-				p = &Val{T: types.NewPointer(arr.Elem()), L: []string{base.L[0], e.simpAdd(base.L[1], i.L[0])}, Root: base.Root}
-			} else {
-				p = &Val{T: types.NewPointer(arr.Elem()), L: base.L, Root: base.Root, Path: append(append([]Step{}, base.Path...), Step{Field: -1, Index: i.L[0]})}
-			}
+			rb := e.rowPtr(e.annotate(base), arr)
+			p := &Val{T: types.NewPointer(arr.Elem()), L: []string{rb.L[0], e.simpAdd(rb.L[1], i.L[0])}, Root: rb.Root}
 			return e.loadSpec(ctx, p, arr.Elem())
 		}
 	}
@@ -1075,8 +1075,7 @@ func specCallees(x SExpr) []string {
 // or envconfig.GpuOverhead(): an uninterpreted function of its (scalar) arguments.
 func (e *Enc) callPureInSpec(x SCall, ctx *specCtx) *Val {
 	var args []*Val
-	name := x.Fn
-	var retT types.Type
+	var fo *types.Func
 	if x.Recv != nil && strings.HasPrefix(x.Fn, ".") {
 		recv := e.evalSpec(x.Recv, ctx)
 		args = append(args, recv)
@@ -1084,28 +1083,11 @@ func (e *Enc) callPureInSpec(x SCall, ctx *specCtx) *Val {
 			e.fail("method call on untyped value")
 		}
 		m := strings.TrimPrefix(x.Fn, ".")
-		ms := types.NewMethodSet(recv.T)
-		sel := ms.Lookup(nil, m)
-		if sel == nil {
-			ms = types.NewMethodSet(types.NewPointer(recv.T))
-			sel = ms.Lookup(nil, m)
-		}
-		if sel == nil {
-			// unexported method: search by name ignoring package
-			for i := 0; i < ms.Len(); i++ {
-				if ms.At(i).Obj().Name() == m {
-					sel = ms.At(i)
-				}
-			}
-		}
-		if sel == nil {
+		fo = lookupMethod(recv.T, m)
+		if fo == nil {
 			e.fail("no method %s on %v", m, recv.T)
 		}
-		sig := sel.Obj().Type().(*types.Signature)
-		retT = sigRet(sig)
-		name = typeKey(recv.T) + "." + m
 	} else if x.Recv != nil {
-		// qualified: pkg.Func(...)
 		id := x.Recv.(SIdent)
 		_, bound := ctx.bound[id.Name]
 		_, inEnv := ctx.env[id.Name]
@@ -1114,33 +1096,81 @@ func (e *Enc) callPureInSpec(x SCall, ctx *specCtx) *Val {
 			_, resolved = ctx.resolve(id.Name)
 		}
 		if bound || inEnv || resolved {
-			// method call on a variable
 			return e.callPureInSpec(SCall{Fn: "." + x.Fn[strings.Index(x.Fn, ".")+1:], Recv: x.Recv, Args: x.Args}, ctx)
 		}
 		fnName := x.Fn[strings.Index(x.Fn, ".")+1:]
 		obj := e.lookupPkgObject(ctx.pkg, id.Name, fnName)
-		fo, ok := obj.(*types.Func)
+		f2, ok := obj.(*types.Func)
 		if !ok {
 			e.fail("unknown function %s in spec", x.Fn)
 		}
-		retT = sigRet(fo.Type().(*types.Signature))
-		name = fo.Pkg().Path() + "." + fo.Name()
+		fo = f2
 	} else {
 		obj := e.lookupPkgObject(ctx.pkg, "", x.Fn)
-		fo, ok := obj.(*types.Func)
+		f2, ok := obj.(*types.Func)
 		if !ok {
 			e.fail("unknown function %s in spec", x.Fn)
 		}
-		retT = sigRet(fo.Type().(*types.Signature))
-		name = fo.Pkg().Path() + "." + fo.Name()
+		fo = f2
+	}
+	sig := fo.Type().(*types.Signature)
+	retT := sigRet(sig)
+	if retT == nil {
+		e.fail("function %s has no result", x.Fn)
 	}
 	for _, a := range x.Args {
 		args = append(args, e.evalSpec(a, ctx))
 	}
-	if retT == nil {
-		e.fail("function %s has no result", x.Fn)
+	// typed arguments: untyped spec integers take the parameter type
+	key := funcObjKey(fo)
+	ctr := e.DB.Funcs[key]
+	if ctr == nil || !ctr.Pure {
+		e.fail("function %s used in a specification needs a contract declared pure", ShortKey(key))
 	}
-	return e.pureApp(name, args, retT)
+	ctr.UsedExtern = true
+	st := ctx.st
+	if ctx.inOld {
+		st = ctx.old
+	}
+	return e.pureApp(e.pureName(ctr, key), e.pureArgs(ctr, args, st), retT)
+}
+
+func lookupMethod(T types.Type, m string) *types.Func {
+	for _, t := range []types.Type{T, types.NewPointer(T)} {
+		ms := types.NewMethodSet(t)
+		for i := 0; i < ms.Len(); i++ {
+			if ms.At(i).Obj().Name() == m {
+				if f, ok := ms.At(i).Obj().(*types.Func); ok {
+					return f
+				}
+			}
+		}
+	}
+	return nil
+}
+
+// funcObjKey mirrors FuncKey for a types.Func.
+func funcObjKey(fo *types.Func) string {
+	sig := fo.Type().(*types.Signature)
+	pkg := ""
+	if fo.Pkg() != nil {
+		pkg = fo.Pkg().Path()
+	}
+	if r := sig.Recv(); r != nil {
+		t := r.Type()
+		ptr := false
+		if p, ok := t.(*types.Pointer); ok {
+			t, ptr = p.Elem(), true
+		}
+		if _, isIface := t.Underlying().(*types.Interface); isIface {
+			return ifaceMethodKey(t, fo.Name())
+		}
+		if ptr {
+			return pkg + ".(*" + typeShort(t) + ")." + fo.Name()
+		}
+		return pkg + ".(" + typeShort(t) + ")." + fo.Name()
+	}
+	return pkg + "." + fo.Name()
 }
 
 func sigRet(sig *types.Signature) types.Type {
@@ -1188,6 +1218,9 @@ func (e *Enc) evalDesignator(x SExpr, ctx *specCtx) *designator {
 	case SSel:
 		if strings.HasPrefix(x.Name, "ghost_") {
 			base := e.evalSpec(x.X, ctx)
+			if base.Box != nil {
+				base = base.Box
+			}
 			hk := e.hkeyNamed(types.Typ[types.UnsafePointer], "/"+x.Name+":"+typeKey(base.T), "Int")
 			idx := "0"
 			if len(base.L) >= 2 {
@@ -1254,6 +1287,19 @@ func (e *Enc) evalDesignator(x SExpr, ctx *specCtx) *designator {
 	case SIdent:
 		if strings.HasPrefix(x.Name, "ghost_") {
 			return &designator{kind: "ghost", ghost: "g:" + x.Name}
+		}
+	case SCall:
+		if x.Fn == "boxed" && len(x.Args) == 1 {
+			// the object pointed to by the pointer held in an interface value
+			v := e.evalSpec(x.Args[0], ctx)
+			if v.Box == nil {
+				return &designator{kind: "all"}
+			}
+			pt, ok := v.Box.T.Underlying().(*types.Pointer)
+			if !ok {
+				return &designator{kind: "none"}
+			}
+			return &designator{kind: "loc", ptr: e.annotate(v.Box), T: pt.Elem(), ghosts: true}
 		}
 	}
 	return nil
